@@ -30,6 +30,8 @@
 (*                                   entries                                  *)
 (*   quiet                           lock.Context: every goroutine is blocked *)
 (*                                   or parked (nothing can move by itself)   *)
+(*   settled {now}                   outer-cancel: every goroutine of the     *)
+(*                                   bubble is blocked (after a script step)  *)
 (*   stuck {g}                       end of run: g's call never returns       *)
 (*   panic {g, what} / crash {what}  a lock operation panicked / killed the   *)
 (*                                   process                                  *)
@@ -46,14 +48,14 @@ Get(f, k, d) == IF k \in DOMAIN f THEN f[k] ELSE d
 Put(f, k, v) == (k :> v) @@ f
 Now(e) == IF "now" \in DOMAIN e THEN e.now ELSE 0
 
-NoG == [st |-> "idle", key |-> 0, mode |-> "w", ask |-> 0, cancelled |-> FALSE, told |-> FALSE, alone |-> FALSE, wclean |-> FALSE, lockTold |-> FALSE]
+NoG == [st |-> "idle", key |-> 0, mode |-> "w", ask |-> 0, cancelled |-> FALSE, told |-> FALSE, alone |-> FALSE, wclean |-> FALSE, lockTold |-> FALSE, ord |-> 0, atrest |-> FALSE]
 
 CReset(e) == [bad |-> FALSE, why |-> "", prim |-> e.prim, graceful |-> e.graceful,
               real |-> IF "realtime" \in DOMAIN e THEN e.realtime ELSE FALSE,   \* outer-cancel run on the real clock (free-running)
               g |-> << >>,       \* goroutine -> NoG-shaped record; st: idle | calling | held | in | out | releasing
               q |-> << >>,       \* key -> sequence of sets of goroutines (arrival groups, oldest first)
               del |-> << >>,     \* key -> "" | "deleteunlock" | "deleterunlock" (the last delete-and-release)
-              shut |-> FALSE, erred |-> FALSE, lastk |-> 0]
+              shut |-> FALSE, erred |-> FALSE, lastk |-> 0, ordok |-> TRUE]
 
 Fifo(c) == c.prim \in {"fifomutex", "fifomap"}
 Outer(c) == c.prim = "outercancel" /\ ~c.shut
@@ -72,6 +74,10 @@ Unqueue(c, k, g) ==
       t == [i \in 1..Len(s) |-> s[i] \ {g}]
   IN Put(c.q, k, SelectSeq(t, LAMBDA x : x # {}))
 
+(* the highest position among the calls in flight (0 if none): positions are relative, so that they stay small *)
+MaxOrd(c, g) == LET S == {c.g[x].ord : x \in {y \in Gs(c) \ {g} : c.g[y].st = "calling"}}
+                IN IF S = {} THEN 0 ELSE CHOOSE m \in S : \A n \in S : n <= m
+
 (* alone: during the whole call nobody else held anything (acq_ret ok .. rel_ret) or had a call in flight *)
 (* (acq_call .. acq_ret); any other call that starts meanwhile ends it for everybody who waits            *)
 CAcqCall(c, e) ==
@@ -83,7 +89,15 @@ CAcqCall(c, e) ==
            nowriter == \A h \in Gs(c) \ {e.g} : c.g[h].mode # "w" \/ c.g[h].st = "idle"
        IN [c EXCEPT !.g = Put(others, e.g, [st |-> "calling", key |-> e.key, mode |-> e.mode, ask |-> Now(e),
                                             cancelled |-> e.pre, told |-> FALSE, alone |-> quiet,
-                                            wclean |-> e.mode = "w" /\ nowriter, lockTold |-> FALSE]),
+                                            wclean |-> e.mode = "w" /\ nowriter, lockTold |-> FALSE,
+                                            \* ord: position in the order of the calls; atrest: the call was issued while
+                                            \* nothing else was moving and came to rest before the next one (then
+                                            \* the order of the calls is the order in which they reached the lock)
+                                            ord |-> IF c.prim = "outercancel" THEN 1 + MaxOrd(c, e.g) ELSE 0,
+                                            atrest |-> FALSE]),
+                    \* ordok: every call in flight was issued at rest
+                    !.ordok = (IF \E h \in Gs(c) \ {e.g} : c.g[h].st = "calling" THEN c.ordok ELSE TRUE)
+                              /\ (IF "atrest" \in DOMAIN e THEN e.atrest ELSE FALSE),
                     !.lastk = e.key]
 
 CArrive(c, e) ==
@@ -99,7 +113,7 @@ CAcqRet(c, e) ==
       liveR == {h \in Gs(c) \ {e.g} : c.g[h].mode = "r" /\ Holding(c, h)}
   IN
   IF r.st # "calling" THEN Bad("harness-acq-ret-without-call")
-  ELSE IF ~e.ok THEN [c EXCEPT !.g[e.g].st = "idle", !.erred = TRUE, !.q = Unqueue(c, k, e.g)]   \* an error: holds nothing
+  ELSE IF ~e.ok THEN [c EXCEPT !.g[e.g].st = "idle", !.g[e.g].ord = 0, !.erred = TRUE, !.q = Unqueue(c, k, e.g)]   \* an error: holds nothing
   ELSE IF Fifo(c) /\ Len(s) > 0 /\ e.g \notin s[1] THEN Bad("fifo-granted-out-of-arrival-order")
   ELSE IF Outer(c) /\ r.mode = "r" /\ \E h \in Gs(c) \ {e.g} : c.g[h].mode = "w" /\ Holding(c, h)
        THEN Bad("outer-reader-admitted-while-writer-holds")
@@ -114,7 +128,7 @@ CAcqRet(c, e) ==
   ELSE LET g1 == IF Outer(c) /\ r.mode = "w"      \* the lock has had its grace period with every reader still around
                  THEN [h \in Gs(c) |-> IF h \in liveR THEN [c.g[h] EXCEPT !.lockTold = TRUE] ELSE c.g[h]]
                  ELSE c.g
-       IN [c EXCEPT !.g = [g1 EXCEPT ![e.g].st = "held"], !.q = Unqueue(c, k, e.g)]
+       IN [c EXCEPT !.g = [g1 EXCEPT ![e.g].st = "held", ![e.g].ord = 0], !.q = Unqueue(c, k, e.g)]
 
 CEnter(c, e) ==
   LET r == Get(c.g, e.g, NoG)
@@ -176,6 +190,17 @@ CQuiet(c, e) ==
   THEN Bad("waiter-whose-context-ended-keeps-waiting")
   ELSE c
 
+(* outer-cancel at rest (virtual clock; every call was issued at rest, so the calls reached the lock in call order):  *)
+(* a reader with two or more acquisitions waiting ahead of it (one in the handler's hands, one in the 1-slot request *)
+(* channel) is blocked handing its request over; once its context has ended it must have returned                  *)
+CSettled(c, e) ==
+  LET calling == {h \in Gs(c) : c.g[h].st = "calling"}
+      ahead(h) == {x \in calling : c.g[x].ord < c.g[h].ord}
+  IN IF Virtual(c) /\ c.ordok
+        /\ \E h \in calling : c.g[h].mode = "r" /\ c.g[h].cancelled /\ Cardinality(ahead(h)) >= 2
+     THEN Bad("waiter-whose-context-ended-keeps-waiting")
+     ELSE c
+
 (* a call that never returns *)
 CStuck(c, e) ==
   LET r == Get(c.g, e.g, NoG)
@@ -205,6 +230,7 @@ CNext(c, e) ==
          [] e.ev = "adv"          -> CAdv(c, e)
          [] e.ev = "obs"          -> CObs(c, e)
          [] e.ev = "quiet"        -> CQuiet(c, e)
+         [] e.ev = "settled"      -> CSettled(c, e)
          [] e.ev = "stuck"        -> CStuck(c, e)
          [] e.ev = "panic"        -> Bad("panic" \o After(c, c.lastk))
          [] e.ev = "crash"        -> Bad("crash" \o After(c, c.lastk))
